@@ -136,7 +136,7 @@ fn run_set<S: PS>(ctx: &Ctx) -> Acc {
         });
 
         // ---- constant-time test entry point (feature dudect): keygen + sign in CTEST mode ------
-        for _ in 0..if thorough { 24 } else { 8 } {
+        for _ in 0..if !S::HAS_DUDECT { 0 } else if thorough { 24 } else { 8 } {
             let script = g.bytes(64);
             let m = g.bytes(8);
             let inp = || json!({"set": S::SET, "rng_script": hex(&script), "message": hex(&m)});
